@@ -16,6 +16,7 @@ DECIDES = ('the unweighted-points / weights caches of the three rational classes
 NOT_DECIDED = 'invariance of evaluated points under a common positive weight factor; numerical round-trip to rounding; evaluation equality after type conversion (needs C01).'
 TECHNIQUE = 'static typestate dataflow + per-point map extraction in polynomial normal form + axis-tag rules + may-alias escape analysis'
 DECIDES += (" [ABSTRACT INTERPRETATION, exact] CV3: every converter of geomdl.compatibility and its three file variants, interpreted on a non-square net of monomial cells, returns cell by cell the documented result (x*w / x/w / w kept; [u][v] <-> [v][u]) and saves the array of its own converter with that array's row / column counts; PP2: GridWeighted.grid multiplies point [i][j] by weight j + i * (points per row) (FH1, LY3f, PP1 only corroborate).")
+DECIDES += (' KD5: the rational setters accept homogeneous points of the lowest admissible dimension and store floats in fresh lists.')
 
 CONVERTERS = {
     'compatibility.generate_ctrlptsw': ('mul', 'own-slot'),
